@@ -349,6 +349,33 @@ example : (runClientSeq parseDate none
     = [(.ok "2025-03-26", some ("2025-03-26", true)), (.mismatch, some ("2025-03-26", true)),
        (.ok "2025-06-18", some ("2025-06-18", false))] := by decide
 
+/-- Connections are independent: with any number of connections (streams + tracked client) alive
+in one process and their calls interleaved in any order, what happens on one connection — every
+call's outcome and transcript, and the state of its tracked client — is what would happen if it
+were alone with its own calls. -/
+theorem c03_connections_independent (parse : String → Option (Int × Int × Int))
+    (trs : Nat → Tracked) (steps : List (Nat × ClientStep)) (k : Nat) :
+    ((runClients parse trs steps).filter (fun x => x.1 = k)).map (·.2)
+      = runClientSeq parse (trs k) ((steps.filter (fun x => x.1 = k)).map (·.2)) := by
+  induction steps generalizing trs with
+  | nil => simp [runClients, runClientSeq]
+  | cons x rest ih =>
+    obtain ⟨j, sup, pref, ans⟩ := x
+    by_cases hj : j = k
+    · subst hj
+      simp only [runClients, List.filter_cons, decide_true, if_true, List.map_cons, runClientSeq, ih]
+    · have hj' : ¬ k = j := fun e => hj e.symm
+      simp only [runClients, List.filter_cons, hj, decide_false, Bool.false_eq_true, if_false]
+      rw [ih]
+      simp [hj']
+
+example : (runClients parseDate (fun _ => none)
+      [(0, ["2025-06-18", "2025-03-26"], none, .version "2025-03-26"),
+       (1, ["2025-06-18", "2025-03-26"], none, .version "2025-06-18"),
+       (0, ["2025-06-18", "2025-03-26"], none, .version "2026-01-01")]).map (fun r => (r.1, r.2.1, r.2.2.2))
+    = [(0, .ok "2025-03-26", some ("2025-03-26", true)), (1, .ok "2025-06-18", some ("2025-06-18", false)),
+       (0, .mismatch, some ("2025-03-26", true))] := by decide
+
 /-- The one-line helpers next to `send_initialize` (`get_supported_versions`, `get_current_version`,
 `is_version_supported`, `validate_version_format`) and the legacy `_supports_batch_processing` are
 plain calls of the function they name with their own arguments (REGENERATED alias table): what the
